@@ -414,4 +414,21 @@ def hRun (F : HOra) : Prog → HSt → HSt
               else hRun F e { s with clk := s.clk + 1 }
     if s'.dead then s' else hRun F rest s'
 
+/-! ## Pure readers (`predict*`, `sample*`): nothing of `self` is written or mutated -/
+
+def Path.isSelf : Path → Bool
+  | .attr _ => true
+  | .sub p _ => p.isSelf
+  | .loc _ => false
+
+/-- the summary writes no attribute of `self` and mutates nothing through an attribute path of `self` -/
+def pureReader : Prog → Bool
+  | .skip => true
+  | .abort => true
+  | .seq (.writeAttr _ _) _ => false
+  | .seq (.mutate p _) rest => !p.isSelf && pureReader rest
+  | .seq (.callFit p) rest => !p.isSelf && pureReader rest
+  | .seq _ rest => pureReader rest
+  | .ite t e rest => pureReader t && pureReader e && pureReader rest
+
 end Ska.Effects
